@@ -15,6 +15,7 @@ Bind == sess' = E.st.sess /\ last'.reply = E.res.reply
 SReg     == IsEvent("Reg")     /\ Reg(E.h, E.j, E.k, E.m)     /\ Bind
 SCheckIn == IsEvent("CheckIn") /\ CheckIn(E.h)                 /\ Bind
 SRefresh == IsEvent("Refresh") /\ Refresh(E.h, E.j, E.k, E.m) /\ Bind
+SKill    == IsEvent("Kill")    /\ Kill(E.h, E.k)             /\ Bind
 
 (* monitor: table from the log; `sent` from the calls alone *)
 FirstValidReg == E.ev = "Reg" /\ E.h = E.j /\ sent[E.h] = NoneRec
@@ -24,7 +25,7 @@ MonStep == /\ l <= Len(TraceLog) /\ E.ev # "Reset" /\ l' = l + 1
            /\ sent' = IF FirstValidReg \/ ValidRefresh THEN [sent EXCEPT ![E.h] = [key |-> E.k, meta |-> E.m]] ELSE sent
            /\ last' = [op |-> E.ev, h |-> E.h, reply |-> E.res.reply]
            /\ UNCHANGED hist
-TraceNext == Reset \/ (Strict /\ (SReg \/ SCheckIn \/ SRefresh)) \/ (~Strict /\ MonStep)
+TraceNext == Reset \/ (Strict /\ (SReg \/ SCheckIn \/ SRefresh \/ SKill)) \/ (~Strict /\ MonStep)
 TraceSpec == TraceInit /\ [][TraceNext]_tvars
 TraceAccepted == TLCGet("stats").diameter - 1 = Len(TraceLog)
 (* the id of an existing session never changes (Reset starts a new server) *)
